@@ -832,6 +832,13 @@ impl<'r> Gen<'r> {
                 return s;
             }
         }
+        if self.f.failures && self.rng.chance(1, 6) {
+            // a discarded value: when its computation fails, the failure must still happen here
+            self.tag("discarded_value");
+            let t = self.gen_type(1);
+            let e = self.gen_expr(&t, d, inner);
+            return Stmt::Let(Pat::Wild, None, e);
+        }
         match self.rng.below(10) {
             0 => {
                 // effect statement
@@ -1085,6 +1092,11 @@ impl<'r> Gen<'r> {
                 }
                 Ty::Ref(t) if &**t == ty => {
                     cands.push(Expr::Builtin("ref_get".into(), vec![Expr::Var(v.name.clone())]));
+                }
+                // a vector's length is not known here: indexing may fail, so only where failures are wanted
+                Ty::Vec(t) if &**t == ty && v.known && self.f.failures => {
+                    self.tag("vec_get_may_fail");
+                    cands.push(Expr::Builtin("vec_get".into(), vec![Expr::Var(v.name.clone()), Expr::Int(IntTy::I32, self.rng.below(3) as i128, false)]));
                 }
                 _ => {}
             }
